@@ -285,6 +285,7 @@ func C14(c *mc.Ctx) {
 		Close: func(x mc.Instance) { x.(*c14Inst).w.R.Close() },
 	}
 	b.Run()
+	c14Grants(c)
 	fix.Cleanup()
 	c.Set("rule", "BFS over block histories (depth 2, thorough 3) of 23 block kinds: transfers with amount in {0,1,balance,balance+1,balance-fee,10^40,non-numeric,negative} between rich/poor/self/admin accounts whose balances sit at fee-1, fee, fee+1, fee+9, plus succeeding and failing contract calls and multi-tx blocks; per block: sum of persisted balances, sign of every balance, receipt verdicts and (for transfer-only blocks) every account balance against an arithmetic reference")
 	c.Assume("gas price 50000, 4 admins; the admin grant path (RegisterRole approval) is not in this alphabet")
